@@ -587,20 +587,26 @@ func (pr *ProtoArray) OnPrune(ctx context.Context, anchorRoot Root, anchorSlot S
 		// nothing to do
 		return nil
 	}
-	// Get the head, it will help quickly determine if pruned nodes are canonical
+	// The anchor must lead to a head.
 	head, err := pr.FindHead(anchorRoot, anchorSlot)
 	if err != nil {
 		return err
 	}
-	headIndex, ok := pr.indices[head]
-	if !ok {
+	if _, ok := pr.indices[head]; !ok {
 		return HeadUnknownErr
+	}
+	// The canonical nodes among the pruned ones are those the anchor was built on:
+	// the slot and block nodes of the chain below it, as CanonicalChain lists them.
+	canonicalNodes := make(map[NodeIndex]struct{})
+	for i := pr.nodes[anchorIndex-pr.indexOffset].TransitionParent; i != NONE && i >= pr.indexOffset; {
+		canonicalNodes[i] = struct{}{}
+		i = pr.nodes[i-pr.indexOffset].TransitionParent
 	}
 	// Remove the `self.indices` and `self.blockSlots` key/values for all the to-be-deleted nodes.
 	var pruned []prunedNode
 	for i := pr.indexOffset; i < anchorIndex; i++ {
 		node := &pr.nodes[i-pr.indexOffset]
-		canonical := node.BestDescendant == headIndex
+		_, canonical := canonicalNodes[i]
 		pruned = append(pruned, prunedNode{canonical, node})
 	}
 	// Send pruned nodes to the node sink (if there is one). Continue until it fails.
